@@ -37,6 +37,8 @@ pub struct GoRec {
     pub search_start_seq: Option<u64>,
     pub timer: Option<Tid>,
     pub timer_flag: Option<usize>,
+    /// every flag the timer thread lowered
+    pub timer_flags: Vec<usize>,
     pub timer_store_seq: Option<u64>,
     pub timer_exit_tp: Option<u64>,
     pub raise_seq: Option<u64>,
@@ -430,7 +432,26 @@ pub fn analyse_session(case: &Case, out: &Outcome) -> Analysis {
                             gos[gi].info_time_ms = line[10..].trim().parse().ok();
                         }
                     } else if tok == "bestmove" {
-                        a.v("C14", "R3-bestmove-count", cmd_id, format!("main thread wrote `{}`", line));
+                        // an engine may announce the move from its stdin loop (e.g. after joining the search): it then
+                        // answers the outstanding go, if there is one
+                        let target = outstanding.or(cmd_go);
+                        match target {
+                            Some(gi) => {
+                                let g = &mut gos[gi];
+                                g.n_best += 1;
+                                if g.n_best == 1 {
+                                    g.best = line.split_ascii_whitespace().nth(1).map(|s| s.to_string());
+                                    g.best_seq = e.seq;
+                                    g.best_t = e.t;
+                                    g.best_polls = g.search.and_then(|t| out.threads.get(t)).map_or(0, |t| t.polls);
+                                    last_best_seq = e.seq;
+                                    if outstanding == Some(gi) {
+                                        outstanding = None;
+                                    }
+                                }
+                            }
+                            None => a.v("C14", "R3-bestmove-count", cmd_id, format!("`{}` written although no `go` is outstanding", line)),
+                        }
                     }
                 } else if let Some(&gi) = thread_go.get(&e.th) {
                     let g = &mut gos[gi];
@@ -466,6 +487,10 @@ pub fn analyse_session(case: &Case, out: &Outcome) -> Analysis {
                         thread_go.insert(*child, gi);
                         gos[gi].spawned += 1;
                     }
+                } else if let Some(&gi) = thread_go.get(&e.th) {
+                    // a thread started by one of a go's threads works for the same go
+                    thread_go.insert(*child, gi);
+                    gos[gi].spawned += 1;
                 }
             }
             EvK::Start => {
@@ -493,7 +518,10 @@ pub fn analyse_session(case: &Case, out: &Outcome) -> Analysis {
                 } else if let Some(&gi) = thread_go.get(&e.th) {
                     if role(e.th) == Role::Timer && !*val {
                         gos[gi].timer_flag = Some(*flag);
-                        gos[gi].timer_store_seq = Some(e.seq);
+                        gos[gi].timer_flags.push(*flag);
+                        if gos[gi].timer_store_seq.is_none() {
+                            gos[gi].timer_store_seq = Some(e.seq);
+                        }
                         if gos[gi].stop_kind.is_none() && gos[gi].n_best == 0 {
                             gos[gi].stop_kind = Some("timer");
                         }
@@ -644,45 +672,57 @@ pub fn analyse_session(case: &Case, out: &Outcome) -> Analysis {
             } else {
                 None
             };
-            match g.sleep_ns {
-                None => {
-                    // a timer thread that was spawned but had not started to sleep when the run ended cannot be judged;
-                    // a `go` that spawned the search thread only has armed no timer at all
-                    if g.spawned < 2 && (g.search.is_some() || g.n_best > 0) {
-                        a.v("C13", "R2-no-timer", g.cmd, format!("`{}` was given a time budget but no timer thread was started", g.line));
+            // what the simulator itself may add: the timer thread passes 5 yield points (start, sleep, wake-up,
+            // store.pre, store) at each of which it can be passed over for at most FAIR+1 polls, plus one poll
+            // of clock granularity and one poll to observe the flag
+            let slack = (5 * (case.params.fair as u64 + 1) + 2) * case.params.node_cost;
+            if let Some(ns) = g.sleep_ns {
+                if let Some(l) = limit_ms {
+                    if ns as u128 > l as u128 * 1_000_000 {
+                        a.v("C13", "R1-budget-exceeds-clock", g.cmd, format!("`{}`: allotted {} ns of thinking time, more than the {} ms available", g.line, ns, l));
+                    }
+                    if let Some(it) = g.info_time_ms {
+                        if it > l as u128 {
+                            a.v("C13", "R1-budget-exceeds-clock", g.cmd, format!("`{}`: `info time {}` exceeds the {} ms available", g.line, it, l));
+                        }
                     }
                 }
-                Some(ns) => {
+                // lateness against the time the engine allotted itself
+                if g.n_best > 0 {
+                    let allowed = ns.saturating_add(g.over_ns).saturating_add(slack);
+                    let took = g.best_t - g.read_t;
+                    if took > allowed {
+                        a.v("C13", "R3-late", g.cmd, format!("`{}`: bestmove after {} ns, allotted {} ns (+{} oversleep, +{} scheduling slack)", g.line, took, ns, g.over_ns, slack));
+                    }
                     if let Some(l) = limit_ms {
-                        if ns as u128 > l as u128 * 1_000_000 {
-                            a.v("C13", "R1-budget-exceeds-clock", g.cmd, format!("`{}`: allotted {} ns of thinking time, more than the {} ms available", g.line, ns, l));
-                        }
-                        if let Some(it) = g.info_time_ms {
-                            if it > l as u128 {
-                                a.v("C13", "R1-budget-exceeds-clock", g.cmd, format!("`{}`: `info time {}` exceeds the {} ms available", g.line, it, l));
-                            }
-                        }
-                        // lateness
-                        if g.n_best > 0 {
-                            // what the simulator itself may add: the timer thread passes 5 yield points (start, sleep, wake-up,
-                            // store.pre, store) at each of which it can be passed over for at most FAIR+1 polls, plus one poll
-                            // of clock granularity and one poll to observe the flag
-                            let slack = (5 * (case.params.fair as u64 + 1) + 2) * case.params.node_cost;
-                            let allowed = ns.saturating_add(g.over_ns).saturating_add(slack);
-                            let took = g.best_t - g.read_t;
-                            if took > allowed {
-                                a.v("C13", "R3-late", g.cmd, format!("`{}`: bestmove after {} ns, allotted {} ns (+{} oversleep, +{} scheduling slack)", g.line, took, ns, g.over_ns, slack));
-                            }
-                            if case.has_tag("tight") && l >= 10 && took > l * 1_000_000 {
-                                a.v("C13", "R3-late", g.cmd, format!("`{}`: bestmove after {} ns, later than the {} ms available (tight regime)", g.line, took, l));
-                            }
+                        if case.has_tag("tight") && l >= 10 && took > l * 1_000_000 {
+                            a.v("C13", "R3-late", g.cmd, format!("`{}`: bestmove after {} ns, later than the {} ms available (tight regime)", g.line, took, l));
                         }
                     }
-                    if let (Some(tf), Some(sf)) = (g.timer_flag, g.search_flag) {
-                        if tf != sf {
-                            a.v("C13", "R2-no-timer", g.cmd, format!("`{}`: the timer cleared flag{} but the search polls flag{}", g.line, tf, sf));
-                        }
+                }
+                // observations, not verdicts: how the engine arms its timer is its own business
+                if g.spawned < 2 {
+                    a.probe("timed go that started no thread besides the search");
+                }
+                if let Some(sf) = g.search_flag {
+                    if !g.timer_flags.is_empty() && !g.timer_flags.contains(&sf) {
+                        a.probe("timer lowered a flag other than the one the search polled first");
                     }
+                }
+            } else if g.spawned < 2 {
+                a.probe("timed go that started no thread besides the search");
+            }
+            // lateness against the time available, whatever mechanism the engine uses to stop itself
+            if let Some(l) = limit_ms {
+                let limit_ns = (l as u128 * 1_000_000).min(u64::MAX as u128 / 2) as u64;
+                let allowed = limit_ns.saturating_add(4_000_000).saturating_add(slack);
+                if g.n_best > 0 {
+                    let took = g.best_t - g.read_t;
+                    if took > allowed {
+                        a.v("C13", "R3-late", g.cmd, format!("`{}`: bestmove after {} ns although only {} ms were available (+{} ns of simulator slack)", g.line, took, l, allowed - limit_ns));
+                    }
+                } else if matches!(out.verdict, Verdict::StepLimit | Verdict::PollLimit) && out.now.saturating_sub(g.read_t) > allowed {
+                    a.v("C13", "R3-late", g.cmd, format!("`{}`: still no bestmove {} ns after the go although only {} ms were available", g.line, out.now - g.read_t, l));
                 }
             }
         }
